@@ -481,6 +481,7 @@ class SimNetwork:
         self.hosts = {}
         self.addrs = {}
         self.default_outcome = None  # used when an address is not listed
+        self.default_ips = None  # names not listed resolve to these (None: gaierror)
         self.resolver_calls = []
         self.connect_attempts = []  # (time, address, outcome_kind, open_others)
         self.sockets = []
@@ -507,6 +508,8 @@ class SimNetwork:
             # literal addresses resolve to themselves
             if _looks_like_ip(h):
                 ips = [h]
+            elif self.default_ips is not None:
+                ips = list(self.default_ips)
             else:
                 raise _socket.gaierror(_socket.EAI_NONAME, "Name or service not known")
         out = []
